@@ -1,5 +1,5 @@
 (* Properties/C08.v — numeric bound keywords admit exactly the numbers inside the bounds *)
-From LLG Require Import Base Params Regex RegexProofs Numeric NumericProofs.
+From LLG Require Import Base Params Regex RegexProofs Numeric NumericProofs FloatRangeProofs.
 Open Scope Z_scope.
 
 (* integer ranges (rx_int_range of numeric.rs): an integer literal is accepted exactly when
@@ -62,3 +62,23 @@ Theorem C08_multiple_of_exact : forall c ds,
   (multiple_of_accepts_int c ds = true <-> (c | val_digits ds 0)).
 Proof. exact multiple_of_guarded_exact. Qed.
 Print Assumptions C08_multiple_of_exact.
+
+(* decimal (number) ranges: every combination of present / absent, inclusive / exclusive bounds
+   (as float_to_str prints them: canonical integer part below 10^18, fraction without trailing
+   zeros); a plain decimal literal — optional minus, canonical integer part, optional fraction
+   with any number of digits, no exponent, negative zero excluded — is accepted exactly when
+   its value is inside the bounds *)
+Theorem C08_decimal_range_exact : forall l r li ri rx p,
+  obound_ok l -> obound_ok r -> plain_ok p ->
+  rx_float_range float_fuel l r li ri = NOk rx ->
+  (re_lang rx (plain_bytes p) <-> in_float_range l r li ri (plain_dec p)).
+Proof. exact float_range_exact. Qed.
+Print Assumptions C08_decimal_range_exact.
+
+(* combinations with no satisfying value are rejected when compiled, all others compile *)
+Theorem C08_empty_decimal_range_rejected : forall l r li ri,
+  bound_ok l -> bound_ok r ->
+  (rx_float_range float_fuel (Some l) (Some r) li ri = NErr <->
+   (dec_lt r l = true \/ (dec_eq l r = true /\ (li && ri) = false))).
+Proof. exact float_range_error_iff_empty. Qed.
+Print Assumptions C08_empty_decimal_range_rejected.
